@@ -234,6 +234,7 @@ class Sequence:
         for msg in messages:
             rel.add_message(msg)
         self._rel = rel
+        self._rel_stale = False
         self.invalidate_abs()
 
     def pad(self, padding_length) -> None:
